@@ -4,8 +4,8 @@ CONSTANTS
   Gaps <- GapsJitter2
   T = 10
   D = 2
-  MaxEvents = 4
-  MaxFails = 3
+  MaxEvents = 6
+  MaxFails = 0
   Backoff = FALSE
   Closed = TRUE
   ObserveCb = TRUE
